@@ -46,7 +46,7 @@ type c09Req struct {
 
 type c09Fault struct {
 	K    int `json:"call"`
-	Code int `json:"code"` // 1 = ChunkMissing, 2 = other store error
+	Code int `json:"code"` // 1 = ChunkMissing, 2 = other store error, 3 = GetChunk succeeds but the object cannot be decoded (C10 only)
 }
 
 type c09Case struct {
@@ -61,6 +61,7 @@ type c09Case struct {
 	Ops     []c09Op    `json:"ops,omitempty"`
 	NH      int        `json:"handles,omitempty"`
 	Reqs    []c09Req   `json:"reqs,omitempty"`
+	Held    int        `json:"held_request,omitempty"` // 1+index of the request that is held inside its first store call while the following requests (on other handles) run
 	ZeroRows bool      `json:"zero_size_rows,omitempty"` // hand-made index with rows of size 0: outside index_describes, correspondence only
 	CLIOff  int        `json:"cli_offset,omitempty"`
 	CLILen  int        `json:"cli_length,omitempty"`
@@ -79,17 +80,36 @@ type c09Store struct {
 	faults  map[int]int
 	calls   int
 	faulted int // number of calls that returned an error
+	// gate: the next GetChunk call announces itself on gateHit and waits for gateCh (a request held inside the store)
+	gateArmed bool
+	gateHit   chan struct{}
+	gateCh    chan struct{}
 }
 
 func (s *c09Store) GetChunk(id desync.ChunkID) (*desync.Chunk, error) {
 	s.mu.Lock()
-	defer s.mu.Unlock()
 	k := s.calls
 	s.calls++
+	var wait chan struct{}
+	if s.gateArmed {
+		s.gateArmed = false
+		wait = s.gateCh
+		close(s.gateHit)
+	}
+	s.mu.Unlock()
+	if wait != nil {
+		<-wait
+	}
+	s.mu.Lock()
+	defer s.mu.Unlock()
 	if c, ok := s.faults[k]; ok {
 		s.faulted++
-		if c == 1 {
+		switch c {
+		case 1:
 			return nil, desync.ChunkMissing{ID: id}
+		case 3:
+			// a store without verification hands out an object that cannot be decoded: GetChunk succeeds, Chunk.Data() fails
+			return desync.NewChunkFromStorage(id, []byte("this is not a zstd frame"), desync.Converters{desync.Compressor{}}, true)
 		}
 		return nil, errC09Fault
 	}
@@ -577,7 +597,10 @@ func c09RunFuse(c *c09Case) (obs string, failAt int, cls, what string, hung bool
 	idx, st, blob, _, _ := c09Build(c)
 	L := int64(len(blob))
 	failAt = -1
+	var failMu sync.Mutex
 	fail := func(i int, k, w string) {
+		failMu.Lock()
+		defer failMu.Unlock()
 		if failAt < 0 {
 			failAt, cls, what = i, k, w
 		}
@@ -612,12 +635,8 @@ func c09RunFuse(c *c09Case) (obs string, failAt int, cls, what string, hung bool
 			}
 			fhs[i] = oo.Fh
 		}
-		for i, q := range c.Reqs {
-			cur = i
-			if q.H >= c.NH {
-				out = append(out, "NOHANDLE")
-				continue
-			}
+		out = make([]string, len(c.Reqs))
+		do := func(i int, q c09Req) {
 			_, f0 := st.counters()
 			buf := make([]byte, q.Len)
 			for j := range buf {
@@ -626,20 +645,20 @@ func c09RunFuse(c *c09Case) (obs string, failAt int, cls, what string, hung bool
 			rr, s := raw.Read(cancel, &fuse.ReadIn{InHeader: fuse.InHeader{NodeId: eo.NodeId}, Fh: fhs[q.H], Offset: uint64(q.Off), Size: uint32(q.Len)}, buf)
 			_, f1 := st.counters()
 			if s != fuse.OK {
-				out = append(out, "EIO")
+				out[i] = "EIO"
 				if s != fuse.EIO {
 					fail(i, "fuse/status", fmt.Sprintf("read(%d,%d) status %v", q.Off, q.Len, s))
 				}
 				if q.Off >= 0 && q.Off <= L && f1 == f0 {
 					fail(i, "fuse/eio-with-healthy-store", fmt.Sprintf("read(off=%d,len=%d) on handle %d failed although the offset is inside the blob and the store did not fail", q.Off, q.Len, q.H))
 				}
-				continue
+				return
 			}
 			data, _ := rr.Bytes(buf)
-			out = append(out, "D:"+vh.Hex(data))
+			out[i] = "D:" + vh.Hex(data)
 			if q.Off < 0 || q.Off > L {
 				fail(i, "fuse/data-outside-blob", fmt.Sprintf("read(off=%d,len=%d) succeeded, L=%d", q.Off, q.Len, L))
-				continue
+				return
 			}
 			want := blob[q.Off:min64(L, q.Off+int64(q.Len))]
 			if !bytes.Equal(data, want) {
@@ -647,9 +666,66 @@ func c09RunFuse(c *c09Case) (obs string, failAt int, cls, what string, hung bool
 				if len(data) < len(want) && bytes.Equal(data, want[:len(data)]) {
 					k = "fuse/short-data"
 				}
-				fail(i, k, fmt.Sprintf("read(off=%d,len=%d) on handle %d returned %d bytes that are not blob[%d:%d]", q.Off, q.Len, q.H, len(data), q.Off, q.Off+int64(len(want))))
+				ov := ""
+				if c.Held > 0 {
+					ov = fmt.Sprintf(" (request %d on handle %d was held in the store meanwhile)", c.Held-1, c.Reqs[c.Held-1].H)
+				}
+				fail(i, k, fmt.Sprintf("read(off=%d,len=%d) on handle %d returned %d bytes that are not blob[%d:%d]%s", q.Off, q.Len, q.H, len(data), q.Off, q.Off+int64(len(want)), ov))
 			}
 		}
+		var heldDone chan interface{} // the held request's goroutine: closed (nil) or a panic value
+		heldH := -1
+		release := func() {
+			if heldDone == nil {
+				return
+			}
+			d := heldDone
+			heldDone, heldH = nil, -1
+			close(st.gateCh)
+			if p := <-d; p != nil {
+				panic(p)
+			}
+		}
+		defer func() {
+			if heldDone != nil { // never leave the goroutine blocked
+				close(st.gateCh)
+			}
+		}()
+		for i, q := range c.Reqs {
+			cur = i
+			if q.H >= c.NH {
+				out[i] = "NOHANDLE"
+				continue
+			}
+			if q.H == heldH { // the handle's mutex is taken by the held request: it has to finish first
+				release()
+			}
+			if c.Held == i+1 {
+				st.mu.Lock()
+				st.gateArmed, st.gateHit, st.gateCh = true, make(chan struct{}), make(chan struct{})
+				hit := st.gateHit
+				st.mu.Unlock()
+				done := make(chan interface{}, 1)
+				go func(i int, q c09Req) {
+					defer func() { done <- recover() }()
+					do(i, q)
+				}(i, q)
+				select {
+				case <-hit: // inside its first GetChunk: the following requests overlap with it
+					heldDone, heldH = done, q.H
+				case p := <-done: // finished without asking the store
+					st.mu.Lock()
+					st.gateArmed = false
+					st.mu.Unlock()
+					if p != nil {
+						panic(p)
+					}
+				}
+				continue
+			}
+			do(i, q)
+		}
+		release()
 	})
 	if hung {
 		return "", cur, "hang", fmt.Sprintf("fuse request %d did not return within 10s", cur), true
@@ -659,9 +735,15 @@ func c09RunFuse(c *c09Case) (obs string, failAt int, cls, what string, hung bool
 		fail(cur, "panic", fmt.Sprintf("fuse request %d panicked: %v", cur, p))
 	}
 	calls, _ := st.counters()
+	var res []string
+	for _, x := range out {
+		if x != "" {
+			res = append(res, x)
+		}
+	}
 	o := "-"
-	if len(out) > 0 {
-		o = strings.Join(out, ",")
+	if len(res) > 0 {
+		o = strings.Join(res, ",")
 	}
 	return fmt.Sprintf("%s;calls=%d", o, calls), failAt, cls, what, false
 }
@@ -917,6 +999,25 @@ func runC09(a vh.Args, o *vh.Oracle, r *vh.Result) error {
 			c.Reqs = append(c.Reqs, c09Req{H: h, Off: c09Target(rng, bs, L), Len: c09ReadLen(rng, c.Sizes, c.Max, L)})
 		}
 		c09GenFaults(rng, c, len(c.Reqs)/2)
+		if c.NH >= 2 && len(c.Reqs) >= 2 && i%2 == 0 {
+			// one request is held inside the store while the following ones run on the other handles; faults tied to call
+			// numbers are left out (which request meets them would depend on the overlap), missing chunks stay
+			c.Faults = nil
+			h := rng.Intn(len(c.Reqs) - 1)
+			if c.Reqs[h].H >= c.NH {
+				c.Reqs[h].H = 0
+			}
+			if rng.Bool() && L > 0 { // make sure it needs the store: a read of everything from the start
+				c.Reqs[h].Off, c.Reqs[h].Len = 0, int(L)
+			}
+			c.Held = h + 1
+			for k := h + 1; k < len(c.Reqs); k++ {
+				if c.Reqs[k].H == c.Reqs[h].H {
+					c.Reqs[k].H = (c.Reqs[h].H + 1 + rng.Intn(c.NH-1)) % c.NH
+				}
+			}
+			r.Dist("fuse:overlapping-handles")
+		}
 		if err := c09CheckFuse(a, o, r, c); err != nil {
 			if err == errC09Hang {
 				r.Note("run aborted after a hang")
